@@ -92,6 +92,49 @@ def rand_target(rng) -> bytes:
     return t
 
 
+def _uri_enc(s, allowed):
+    return b"".join(bytes([b]) if b < 128 and allowed(b) else b"%%%02X" % b for b in s)
+
+
+def _reg(b):
+    return (b < 128 and chr(b).isalnum()) or b in b"-._~!$&'()*+,;="
+
+
+def canonical_abs_target(rng) -> bytes:
+    """an absolute-form target of the class of `Rhymuri.parse_display_absolute` (lower-case scheme, lower-case
+    registered-name host of arbitrary bytes, port <= 65535, absolute path, any query / fragment bytes), printed
+    the way rhymuri prints it: the URI law says it parses and prints back to itself"""
+    def rb(n, lowercase=False):
+        out = bytearray()
+        for _ in range(n):
+            k = rng.below(10)
+            if k < 6:
+                b = rng.pick(b"abcxyz019-._~!$&'()*+,;=%:@/?#[] ")
+            elif k < 8:
+                b = rng.below(256)
+            else:
+                b = rng.pick(b"ABCXYZ")
+            if lowercase and 65 <= b <= 90:
+                b += 32
+            out.append(b)
+        return bytes(out)
+    sch = rng.pick([b"http", b"https", b"a", b"x+y-z.9", b"ws"])
+    s = sch + b"://"
+    if rng.chance(2, 5):
+        s += _uri_enc(rb(rng.below(5)), lambda b: _reg(b) or b == 58) + b"@"
+    s += _uri_enc(rb(rng.below(8), True), _reg)
+    if rng.chance(1, 2):
+        s += b":%d" % rng.pick([0, 1, 80, 8080, 65535, rng.below(65536)])
+    segs = [] if rng.chance(3, 10) else [rb(rng.randint(1, 3))] + [rb(rng.below(4)) for _ in range(rng.below(3))]
+    s += b"/" + b"/".join(_uri_enc(x, lambda b: _reg(b) or b in (58, 64)) for x in segs)
+    qf = lambda b: _reg(b) or b in (58, 64, 47, 63)
+    if rng.chance(1, 2):
+        s += b"?" + _uri_enc(rb(rng.below(5)), lambda b: qf(b) and b != 43)
+    if rng.chance(1, 2):
+        s += b"#" + _uri_enc(rb(rng.below(5)), qf)
+    return s
+
+
 # ------------------------------------------------------------------------------------------
 # start lines
 
